@@ -300,8 +300,7 @@ func refUpdate(cp clientParams, h *ibctm.Header, lookup consLookup, now time.Tim
 	if !seqTally(p.vals.Validators, commit, cp.ChainID, floorDiv(total, 2, 3), true) {
 		return gap("own-set-signature-walk(invalid-vote-or-slot-mismatch-before-threshold)")
 	}
-	e := true
-	v.E = e
+	v.E = true
 	return v
 }
 
